@@ -543,3 +543,29 @@ def run(index, rep, tier):
         rep.rule("R13.14", "what the character-block routes switch on the tokenizer they switch off completely: the mode setters of the NEXUS tokenizer are self-inverse (C09 R09.21) - only the routes that parse character blocks ever capture line ends, so a setter that fails to restore `\\r` makes the data-set and matrix routes disagree with the tree routes, and a string with a path, on CR-LF documents")
         nb = borrow(index, rep, "C09", {"R09.21"}, "R13.14")
         rep.floor("R13.14", "borrowed obligations", 2, nb)
+
+    # ---- R13.15 what one character block's FORMAT set, the next block does not inherit
+    with rep.section("R13.15"):
+        rep.rule("R13.15", "what one character block's FORMAT statement set, the next block does not inherit: every reader variable that _parse_format_statement (and the NCHAR branch of _parse_dimensions_statement) assigns is given its default again by _parse_characters_data_block before the block's statements are read - otherwise a matrix read on its own differs from the same matrix read as the second block of a data set (an INTERLEAVE, GAP or SYMBOLS setting of the first block is applied to it)")
+        XRQ = "dendropy.dataio.nexusreader.NexusReader."
+        fmt = index.function(XRQ + "_parse_format_statement")
+        dims = index.function(XRQ + "_parse_dimensions_statement")
+        blk = index.function(XRQ + "_parse_characters_data_block")
+        per_block = {w.attr for w in writes_in(fmt.node) if w.kind == "store" and w.base is not None and norm(w.base) == "self"}
+        per_block |= {w.attr for w in writes_in(dims.node) if w.kind == "store" and w.base is not None and norm(w.base) == "self" and "nchar" in w.attr.lower()}
+        if len(per_block) < 5:
+            raise AnalysisError("R13.15: the variables set by the FORMAT statement were not recognised (%s)" % sorted(per_block))
+        g = cfg_of(blk)
+        loops = [n for n in g.nodes if n.kind == "test" and isinstance(n.stmt, ast.While)]
+        if not loops:
+            raise AnalysisError("R13.15: the statement loop of _parse_characters_data_block was not recognised")
+        head = loops[0]
+        for a in sorted(per_block):
+            def resets(n, a=a):
+                x = n.ast
+                return isinstance(x, ast.Assign) and any(isinstance(t, ast.Attribute) and t.attr == a and norm(t.value) == "self" for t in x.targets)
+            # only the paths that actually parse the block (the exclude_chars early return is not one of them)
+            ok = g.dominated_by(head, resets, follow_exc=False)
+            rep.check(ok, "R13.15", blk.qualname, "`self.%s` carried over from the previous character block" % a, fn_where(blk), "_parse_characters_data_block resets self.%s" % a,
+                      "NexusReader._parse_characters_data_block starts reading a block without giving `self.%s` its default again, although the FORMAT / DIMENSIONS statement of an earlier block may have set it: a non-interleaved matrix that follows an interleaved one is read as interleaved (TooManyTaxaError), a block without its own SYMBOLS / GAP / MISSING inherits the previous block's - the matrix in the data set is not the matrix read on its own" % a)
+        rep.floor("R13.15", "per-block reader variables", 5, len(per_block))
